@@ -1,4 +1,5 @@
 import Gallia.Proofs.Lemmas.Client
+import Gallia.Proofs.Lemmas.ClientIO
 import Gallia.Gen.C04Limits
 /-
   C04 — One client request ends with the outcome its reply / fault sequence implies.
@@ -212,5 +213,259 @@ example : (2 : Nat) < (run (exCfg 1) (script [.pending, .timeout, .posFinal] .ti
 -- retry-worthy events as the specification counts them: timeout, lost, busy = 3; writes = min (1+3) (2+1)
 example : retryEvents (bounds (exCfg 2)) (script [.timeout, .connErr, .busy] .posFinal) 3 = 3 := by
   simp [retryEvents, retryEventsFrom, stepPhase, script]
+
+/-! ## widened alphabet: `write()` and `reconnect_unsafe()` can fail too (`Model/ClientIO.lean`)
+
+  `runX c io` is one `request_unsafe` over a script of three infinite streams (what the j-th write, the k-th read and
+  the m-th reconnect do); `requestX` puts the client's mutex around it.  Specification: `Spec/ClientIOSpec.lean`
+  (`ImpliedX`).  Everything below holds for every configuration (also `timeout = None` / `0`) and every script. -/
+
+section Widened
+open Gallia.ClientIO Gallia.ClientIOSpec
+
+/-! ### configuration: `None`, `0`, overrides -/
+
+/-- `max(timeout if timeout else 0, 20) / waiting_time`: for a request timeout that is set it is the old silence limit;
+    `None` and `0` are falsy and give the limit of the floor alone -/
+theorem silence_limit_falsy (maxRetry lat : Nat) (st : Option Nat) (lim : Limits) (t : Nat) :
+    maxNTX ⟨maxRetry, some t, st, lat, lim⟩ = maxNT ⟨maxRetry, t, lat, lim⟩ ∧
+    maxNTX ⟨maxRetry, none, st, lat, lim⟩ = maxNT ⟨maxRetry, 0, lat, lim⟩ ∧
+    maxNTX ⟨maxRetry, some 0, st, lat, lim⟩ = (lim.floor + lim.waiting - 1) / lim.waiting := by
+  refine ⟨by simp [maxNTX, maxNT], by simp [maxNTX, maxNT], by simp [maxNTX]⟩
+
+/-- with the code's limits: 40 polls for `None`, `0` and everything up to 20 s -/
+theorem silence_limit_std_io (maxRetry lat : Nat) (st : Option Nat) (t : Option Nat) (h : orZero t ≤ 20000) :
+    maxNTX ⟨maxRetry, t, st, lat, Limits.std⟩ = 40 := by
+  simp only [maxNTX, Limits.std]; omega
+
+/-- per-request overrides are taken when they are not `None` — also `timeout = 0`, which then is falsy for the
+    silence limit but is still what `write()` / `read()` get -/
+theorem resolve_override_io (ct : Option Nat) (cm : Nat) (rt rm : Option Nat) (lat : Nat) (lim : Limits) :
+    (resolveX ct cm rt rm lat lim).maxRetry = rm.getD cm ∧
+    (resolveX ct cm rt rm lat lim).timeout = (match rt with | some t => some t | none => ct) ∧
+    (resolveX ct cm (some 0) rm lat lim).timeout = some 0 ∧
+    maxNTX (resolveX ct cm (some 0) rm lat lim) = maxNTX (resolveX none cm none rm lat lim) := by
+  cases rt <;> cases rm <;> simp [resolveX, maxNTX]
+
+/-- `UDSClient._read`: an explicit timeout (also 0) is passed on; `None` becomes `self.timeout` only when that is truthy.
+    The poll of the responsePending loop passes `waiting_time`, so `self.timeout` never reaches it -/
+theorem read_timeout_resolution (st : Option Nat) (t : Nat) :
+    readTmo st (some t) = some t ∧ readTmo (some (t+1)) none = some (t+1) ∧ readTmo (some 0) none = none ∧
+    readTmo none none = none := by
+  simp [readTmo, truthy]
+
+/-! ### bounded -/
+
+/-- at most `max_retry + 1` write attempts, failed ones included -/
+theorem writes_le_io (c : CfgX) (io : Script) : (runX c io).writes ≤ c.maxRetry + 1 := by
+  simpa [runX, ResX.writes] using (attemptsX_bounds c io 0 0 0 (.missing false)).writes
+
+/-- bounded number of reads, whatever the transport does -/
+theorem reads_le_io (c : CfgX) (io : Script) : (runX c io).reads ≤ readsBound c.base := by
+  exact (attemptsX_bounds c io 0 0 0 (.missing false)).reads
+
+/-- bounded virtual time: per attempt one request timeout (of the write or of the read), the polls of one pending loop
+    and one backoff; a reconnect takes no modelled time -/
+theorem elapsed_le_io (c : CfgX) (io : Script) : (runX c io).elapsed ≤ elapsedBound c.base := by
+  exact (attemptsX_bounds c io 0 0 0 (.missing false)).time
+
+/-- one request terminates within bounds that depend on the configuration only, not on the script -/
+theorem run_total_io (c : CfgX) : ∃ w r t, ∀ io : Script,
+    (runX c io).writes ≤ w ∧ (runX c io).reads ≤ r ∧ (runX c io).elapsed ≤ t :=
+  ⟨c.maxRetry + 1, readsBound c.base, elapsedBound c.base,
+    fun io => ⟨writes_le_io c io, reads_le_io c io, elapsed_le_io c io⟩⟩
+
+/-! ### transmissions -/
+
+/-- one write attempt, plus one per retry-worthy event (failed writes among the writes performed, and the read events
+    `ClientSpec.retryEvents` counts), capped at `max_retry + 1`; when a reconnect failed the retransmission its fault
+    asked for did not happen -/
+theorem writes_eq_io (c : CfgX) (io : Script) :
+    (runX c io).writes =
+      min (1 + retryEventsX (boundsX c) io (runX c io).writes (runX c io).reads
+             - (if (runX c io).out.isRcFail then 1 else 0))
+          (c.maxRetry + 1) := by
+  exact attemptsX_writes_eq c io 0 0 0 (.missing false) (Nat.zero_le _)
+
+/-- the writes that reached the wire are among the write attempts -/
+theorem writes_ok_le_io (c : CfgX) (io : Script) : (runX c io).writesOk ≤ (runX c io).writes := by
+  simp only [ResX.writesOk, ResX.writes, nWritesOkX, nWritesX]
+  exact List.countP_mono_left (fun o _ h => by cases o <;> simp_all [OpX.isWrOk, OpX.isWr])
+
+/-! ### the outcome -/
+
+/-- the outcome of the widened model is the one the widened specification says the script implies -/
+theorem run_sound_io (c : CfgX) (io : Script) : ImpliedReqX (boundsX c) c.maxRetry io (runX c io).out := by
+  simpa [runX, ImpliedReqX] using attemptsX_sound c io 0 0 0 (.missing false) (Nat.zero_le _)
+
+/-- … and the only one -/
+theorem implied_iff_run_io (c : CfgX) (io : Script) (o : OutX) :
+    ImpliedReqX (boundsX c) c.maxRetry io o ↔ o = (runX c io).out :=
+  ⟨fun h => impliedX_unique h (run_sound_io c io), fun h => h ▸ run_sound_io c io⟩
+
+/-- a reply received is never dropped, also when writes and reconnects fail around it -/
+theorem first_final_io (c : CfgX) (io : Script) (j : Nat) (hj : j < (runX c io).reads)
+    (hf : (io.rd j).final = true) : (runX c io).out = .base (.reply j) := by
+  have := (attemptsX_first c io 0 0 0 (.missing false) j (Nat.zero_le _) (by simpa [runX, ResX.reads] using hj)).1 hf
+  simpa [runX] using this
+
+theorem illegal_ends_io (c : CfgX) (io : Script) (j : Nat) (hj : j < (runX c io).reads)
+    (hf : (io.rd j).illegal = true) : (runX c io).out = .base (.illegal j) := by
+  have := (attemptsX_first c io 0 0 0 (.missing false) j (Nat.zero_le _) (by simpa [runX, ResX.reads] using hj)).2 hf
+  simpa [runX] using this
+
+/-- the reply a request returns is the one produced by its last read -/
+theorem reply_is_last_io (c : CfgX) (io : Script) (k : Nat) (h : (runX c io).out = .base (.reply k)) :
+    (runX c io).reads = k + 1 := by
+  have := attemptsX_reply_last c io 0 0 0 (.missing false) (by simp) k (.inl (by simpa [runX] using h))
+  simp [runX, ResX.reads]; omega
+
+/-! ### backoff -/
+
+theorem backoff_io (c : CfgX) (io : Script) :
+    (runX c io).sleeps.Sublist ((List.range c.maxRetry).map (fun i => c.lim.retryWait * c.lim.base ^ i)) := by
+  have h := attemptsX_sleeps c io 0 0 0 (.missing false)
+  have hw : (fun i => c.lim.retryWait * c.lim.base ^ i) = waitX c := rfl
+  rw [hw]
+  simpa [runX, ResX.sleeps, List.range_eq_range'] using h
+
+/-! ### conservativity -/
+
+/-- on scripts without write / reconnect faults the widened run is the old `run`: same outcome, and the same trace
+    once the new detail (timeout given to a write, result of write / reconnect) is forgotten -/
+theorem conservative (c : CfgX) (io : Script) (h : io.Clean) :
+    (runX c io).out = .base (run c.base io.rd).out ∧ (runX c io).trace.map OpX.forget = (run c.base io.rd).trace := by
+  simpa [runX, run] using attemptsX_clean c io h 0 0 0 (.missing false)
+
+/-- … in particular for every script of the old alphabet; the old configuration with timeout `t` is `c.base` -/
+theorem conservative_of_reads (maxRetry t lat : Nat) (st : Option Nat) (lim : Limits) (s : Nat → Ev) :
+    (runX ⟨maxRetry, some t, st, lat, lim⟩ (Script.ofReads s)).out = .base (run ⟨maxRetry, t, lat, lim⟩ s).out ∧
+    (runX ⟨maxRetry, some t, st, lat, lim⟩ (Script.ofReads s)).trace.map OpX.forget = (run ⟨maxRetry, t, lat, lim⟩ s).trace := by
+  have := conservative ⟨maxRetry, some t, st, lat, lim⟩ (Script.ofReads s) ⟨fun _ => rfl, fun _ => rfl⟩
+  simpa [CfgX.base, Script.ofReads] using this
+
+/-! ### the shape of the call sequence -/
+
+/-- in the trace of a request every action is followed by what `okNext` allows: a write that went out by its read, a
+    failed write by the backoff sleep or nothing, a responsePending read by another read, a sleep by a reconnect or a
+    write, a successful reconnect by the retransmission, a failed reconnect by nothing -/
+theorem trace_shape_io (c : CfgX) (io : Script) : Adj (okNext io) (runX c io).trace :=
+  attemptsX_adj c io 0 0 0 (.missing false)
+
+/-- a TimeoutError / ConnectionError raised by `write()` is handled without a read in that attempt: what follows a
+    failed write in the trace is the backoff sleep (or nothing, on the last attempt) -/
+theorem failed_write_no_read (c : CfgX) (io : Script) (pre post : List OpX) (a : Option Nat) (r : WEv) (d : Nat)
+    (nxt : OpX) (h : (runX c io).trace = pre ++ .wr a r d :: nxt :: post) (hr : r ≠ .ok) : ∃ s, nxt = .sl s := by
+  have := adj_split pre _ _ (h ▸ trace_shape_io c io)
+  cases r <;> simp_all [okNext]
+
+/-- ResponsePending prolongs waiting without retransmission, also in the widened model -/
+theorem pending_no_write_io (c : CfgX) (io : Script) (pre post : List OpX) (k : Nat) (t : Option Nat) (d : Nat)
+    (nxt : OpX) (h : (runX c io).trace = pre ++ .rd k t d :: nxt :: post) (hp : io.rd k = .pending) :
+    nxt.isRd = true := by
+  have := adj_split pre _ _ (h ▸ trace_shape_io c io)
+  simp_all [okNext]
+
+/-- nothing happens after a failed reconnect: its exception leaves `request_unsafe` -/
+theorem reconnect_failed_is_last (c : CfgX) (io : Script) (pre post : List OpX) (e : RcFault)
+    (h : (runX c io).trace = pre ++ .rc (.fail e) :: post) : post = [] := by
+  have := adj_split pre _ _ (h ▸ trace_shape_io c io)
+  cases post <;> simp_all [okNext]
+
+/-- the outcome `reconnectFailed m e` means exactly that: reconnect #m of the script fails with `e` -/
+theorem reconnect_failed_event (c : CfgX) (io : Script) (m : Nat) (e : RcFault)
+    (h : (runX c io).out = .reconnectFailed m e) : io.rc m = .fail e := by
+  have hs := run_sound_io c io
+  rw [h] at hs
+  exact impliedX_rcfail hs
+
+/-- when no reconnect fails the request ends within the property's own vocabulary -/
+theorem no_reconnect_failure (c : CfgX) (io : Script) (h : ∀ m, io.rc m = .ok) : ∃ o, (runX c io).out = .base o := by
+  cases ho : (runX c io).out with
+  | base o => exact ⟨o, rfl⟩
+  | reconnectFailed m e => have := reconnect_failed_event c io m e ho; simp [h m] at this
+
+/-- the deadlines the transport sees: every `write()` gets the effective request timeout (`None` included), the first
+    `read()` of an attempt too, and every poll of the responsePending loop gets `waiting_time` — it goes through
+    `_read`, whose `self.timeout` fallback never applies there -/
+theorem call_timeouts (c : CfgX) (io : Script) (op : OpX) (h : op ∈ (runX c io).trace) :
+    (∀ a r d, op = .wr a r d → a = c.timeout) ∧
+    (∀ k t d, op = .rd k t d → t = c.timeout ∨ t = some c.lim.waiting) := by
+  have := attemptsX_tmoOk c io 0 0 0 (.missing false) op h
+  constructor
+  · rintro a r d rfl; exact this
+  · rintro k t d rfl; exact this
+
+/-! ### `request()`: the mutex -/
+
+/-- `request()` returns / raises what `request_unsafe` does, and every transport call of the request happens between
+    acquiring the client's mutex and releasing it; the mutex is released whatever the outcome -/
+theorem request_brackets (c : CfgX) (io : Script) :
+    (requestX c io).out = (runX c io).out ∧
+    (requestX c io).trace.head? = some .acquire ∧ (requestX c io).trace.getLast? = some .release ∧
+    (requestX c io).trace.count .acquire = 1 ∧ (requestX c io).trace.count .release = 1 := by
+  refine ⟨rfl, rfl, ?_, ?_, ?_⟩
+  · show (ReqOp.acquire :: ((runX c io).trace.map ReqOp.io ++ [ReqOp.release])).getLast? = _
+    rw [show ReqOp.acquire :: ((runX c io).trace.map ReqOp.io ++ [ReqOp.release]) =
+      (ReqOp.acquire :: (runX c io).trace.map ReqOp.io) ++ [ReqOp.release] from rfl, List.getLast?_concat]
+  · simp [requestX, List.count_append]
+    exact List.count_eq_zero.mpr (by simp)
+  · simp [requestX, List.count_append]
+    exact List.count_eq_zero.mpr (by simp)
+
+/-! ### non-vacuity -/
+
+def exCfgX (maxRetry : Nat) : CfgX := ⟨maxRetry, some 1000, some 1000, 10, exLim⟩
+def scriptX (w : List WEv) (r : List Ev) (rc : List RcEv) : Script :=
+  ⟨fun j => w.getD j .ok, fun k => r.getD k .timeout, fun m => rc.getD m .ok⟩
+
+macro "runx_eval" : tactic => `(tactic| simp [runX, attemptsX, attemptStepX, faultX, pendingLoop, scriptX, exCfgX, exLim, maxNT,
+  preX, consOp, waitX, tmoDur, liftPend, readTmo, CfgX.base, ResX.writes, ResX.reads, ResX.sleeps, ResX.reconnects,
+  ResX.elapsed, ResX.writesOk])
+
+-- write timeout, then write ConnectionError (backoff, reconnect), then the request gets through: three write attempts
+example : runX (exCfgX 2) (scriptX [.timeout, .connErr] [.posFinal] []) =
+    ⟨.base (.reply 0), [.wr (some 1000) .timeout 1000, .sl 200, .wr (some 1000) .connErr 0, .sl 400, .rc .ok,
+                       .wr (some 1000) .ok 0, .rd 0 (some 1000) 10]⟩ := by runx_eval
+-- the reconnect after a lost connection fails: its exception ends the request, nothing is retransmitted
+example : runX (exCfgX 2) (scriptX [] [.pending, .connErr] [.fail .osErr]) =
+    ⟨.reconnectFailed 0 .osErr, [.wr (some 1000) .ok 0, .rd 0 (some 1000) 10, .rd 1 (some 500) 10, .sl 200,
+                                 .rc (.fail .osErr)]⟩ := by runx_eval
+-- on the last attempt there is no reconnect: a failing write gives missing-response with the cause
+example : (runX (exCfgX 0) (scriptX [.connErr] [] [.fail .connErr])).out = .base (.missing true) ∧
+    (runX (exCfgX 0) (scriptX [.connErr] [] [.fail .connErr])).reads = 0 := by constructor <;> runx_eval
+-- hypotheses of `first_final_io` are satisfiable in a script with a write fault
+example : (0 : Nat) < (runX (exCfgX 1) (scriptX [.timeout] [.negFinal] [])).reads ∧
+    ((scriptX [.timeout] [.negFinal] []).rd 0).final = true := by
+  constructor
+  · runx_eval
+  · simp [scriptX, Ev.final]
+-- the widened relation is inhabited for a script with a reconnect failure
+example : ImpliedReqX (boundsX (exCfgX 1)) 1 (scriptX [.connErr] [] [.fail .timeout]) (.reconnectFailed 0 .timeout) := by
+  have h := run_sound_io (exCfgX 1) (scriptX [.connErr] [] [.fail .timeout])
+  have e : (runX (exCfgX 1) (scriptX [.connErr] [] [.fail .timeout])).out = .reconnectFailed 0 .timeout := by runx_eval
+  rwa [e] at h
+-- a clean script exists (hypothesis of `conservative`)
+example : (Script.ofReads (script [.pending, .posFinal] .timeout)).Clean := ⟨fun _ => rfl, fun _ => rfl⟩
+-- retry-worthy events: a failed write and a read timeout = 2; three write attempts with max_retry 2
+example : (runX (exCfgX 2) (scriptX [.timeout] [.timeout, .posFinal] [])).writes = 3 ∧
+    retryEventsX (boundsX (exCfgX 2)) (scriptX [.timeout] [.timeout, .posFinal] []) 3 2 = 2 := by
+  constructor
+  · runx_eval
+  · simp [retryEventsX, wrFaultsFrom, retryEvents, retryEventsFrom, stepPhase, scriptX]
+-- hypotheses of `failed_write_no_read` / `reconnect_failed_is_last` are satisfiable
+example : (runX (exCfgX 1) (scriptX [.connErr] [] [.fail .timeout])).trace =
+    [] ++ .wr (some 1000) .connErr 0 :: .sl 200 :: [.rc (.fail .timeout)] := by runx_eval
+example : (runX (exCfgX 1) (scriptX [.connErr] [] [.fail .timeout])).trace =
+    [.wr (some 1000) .connErr 0, .sl 200] ++ .rc (.fail .timeout) :: [] := by runx_eval
+-- … and of `pending_no_write_io`
+example : (runX (exCfgX 0) (scriptX [] [.pending, .posFinal] [])).trace =
+    [.wr (some 1000) .ok 0] ++ .rd 0 (some 1000) 10 :: .rd 1 (some 500) 10 :: [] ∧
+    (scriptX [] [.pending, .posFinal] []).rd 0 = .pending := by
+  constructor
+  · runx_eval
+  · simp [scriptX]
+
+end Widened
 
 end Gallia.C04
